@@ -49,7 +49,7 @@ InvOneOwner    == MonOneOwner(st)
 StepOK ==
   /\ MonWriteOnce(st, st')
   /\ MonNotMutual(st, st')
-  /\ MonOwnerChange(st, last', last'.ok, st')
+  /\ MonOwnerChange(st, Pending(st), last', last'.ok, st')
   /\ ~last'.ok => st' = st        \* design fact used by the replay: a rejection changes nothing
 StepProps == [][StepOK]_vars
 
